@@ -46,11 +46,11 @@ func init() {
 		Title:     "Tag lists behave as ordered maps",
 		Technique: "reference-model monitor (ordered map) over random operation sequences on b6.Tags",
 		Rule: "case = random operation sequence (ModifyOrAddTag, AddTag of an absent key, RemoveTag, RemoveTags with present/absent/all keys, " +
-			"MergeFrom, Clone, Get) on a tag list with distinct keys from an 8-key alphabet; distinct = distinct operation script; " +
+			"MergeFrom, Clone, Get; the arguments of RemoveTags and MergeFrom must be left as given) on a tag list with distinct keys from an 8-key alphabet; distinct = distinct operation script; " +
 			"non-trivial = at least one removal hit a present key on a list of >= 2 tags",
 		Assumptions: []string{"tag values are string expressions compared through String()"},
 		Quick:       20000, Thorough: 2000000,
-		Required: []string{"remove_present", "removetags_multi_present", "merge_shorter", "merge_longer", "modify_existing"},
+		Required: []string{"remove_present", "removetags_multi_present", "merge_shorter", "merge_longer", "modify_existing", "argument_checked"},
 		Run: func(c *core.Ctx) {
 			r := c.R
 			var tags b6.Tags
@@ -167,7 +167,19 @@ func init() {
 							c.Count("remove_present")
 						}
 						model = nm
+						before := append([]string{}, ks...)
 						tags.RemoveTags(ks)
+						// the argument is the caller's: callers keep one list of keys and
+						// apply it to many tag lists
+						for i := range before {
+							if ks[i] != before[i] {
+								c.Count("argument_checked")
+								c.Violate("RemoveTags:argument-changed", map[string]any{"script": append(script, desc)},
+									"RemoveTags(%v) left its argument as %v", before, ks)
+								return
+							}
+						}
+						c.Count("argument_checked")
 					case 4: // MergeFrom
 						var other b6.Tags
 						var om []c39kv
